@@ -170,8 +170,56 @@ fn related_secrets<B: Backend>(opts: &Opts, rep: &mut Report) {
     }
 }
 
-fn backend<B: Backend>(opts: &Opts, rep: &mut Report) {
+/// Key *objects* created once and held for the whole sequence (nothing is re-parsed between
+/// operations), with failing / refused library calls interleaved on the same thread before every
+/// step: a round trip must not depend on what failed just before it.
+fn held_objects<B: Backend + 'static>(opts: &Opts, rep: &mut Report) {
+    use paseto_core::version::{PkePublic, PkeSecret};
+    if opts.shard != 4 % opts.nshards && opts.shard != 9 % opts.nshards && opts.only.is_none() {
+        return;
+    }
+    let stream = format!("c05.{}.held", B::NAME);
+    let mut rng = Rng::derive(opts.seed, &stream, opts.shard as u64);
+    let mut noise = crate::noise::Noise::<B>::new(opts.seed ^ 5);
+    let wk = local_key::<B>(&rng.arr());
+    let lk = local_key::<B>(&rng.arr());
+    let lk_raw = key_bytes(&lk);
+    let sk = secret_key::<B>(&B::gen_secret(&mut rng));
+    let sk_raw = key_bytes(&sk);
+    let (ps, pp) = B::gen_pke_pair(&mut rng);
+    let (Ok(psk), Ok(ppk)) = (key_from_bytes::<B, PkeSecret>(&ps), key_from_bytes::<B, PkePublic>(&pp)) else {
+        rep.violation(&format!("C05|{}|seal|valid-recipient-key-rejected", B::NAME), json!({"public": hx_short(&pp)}));
+        return;
+    };
+    let params = pw_cheap::<B>();
+    let n = if B::VER == 1 { opts.size(60, 600) } else { opts.size(600, 8000) };
+    for step in 0..n {
+        let before = noise.burst(&mut rng);
+        let op = if B::VER == 1 && step % 10 != 0 { rng.below(4) } else { rng.below(5) };
+        let (kind, res): (Wk, Result<Result<bool, paseto_core::PasetoError>, String>) = match op {
+            0 => (Wk::PieLocal, guard(|| pie_wrap_local(&lk, &wk).and_then(|w| pie_unwrap_local(&w, &wk)).map(|k| k == lk_raw))),
+            1 => (Wk::PieSecret, guard(|| pie_wrap_secret(&sk, &wk).and_then(|w| pie_unwrap_secret(&w, &wk)).map(|k| k == sk_raw))),
+            2 => (Wk::PwLocal, guard(|| pw_wrap_local(&lk, b"pw", &params).and_then(|w| pw_unwrap_local::<B>(&w, b"pw")).map(|k| k == lk_raw))),
+            3 => (Wk::PwSecret, guard(|| pw_wrap_secret(&sk, b"pw", &params).and_then(|w| pw_unwrap_secret::<B>(&w, b"pw")).map(|k| k == sk_raw))),
+            _ => (Wk::Seal, guard(|| pke_seal(&lk, &ppk).and_then(|w| pke_unseal(&w, &psk)).map(|k| k == lk_raw))),
+        };
+        let sig = format!("C05|{}|{}", B::NAME, kind.name());
+        let d = |what: &str| json!({"backend": B::NAME, "kind": kind.name(), "step": step, "what": what, "failing_calls_just_before_on_this_thread": before});
+        match res {
+            Ok(Ok(true)) => {}
+            Ok(Ok(false)) => rep.violation(&format!("{sig}|mismatch:held-objects"), d("round trip returned a different key")),
+            Ok(Err(e)) => rep.violation(&format!("{sig}|roundtrip-error:{}:after-failed-calls", err_kind(&e)), d("a round trip with held key objects failed right after unrelated calls had (rightly) failed on this thread")),
+            Err(pn) => rep.violation(&format!("{sig}|panic:held-objects"), d(&pn)),
+        }
+        rep.case(&format!("{}.{}.held-objects-after-noise", B::NAME, kind.name()), fnv_parts(&[stream.as_bytes(), &(step as u64).to_le_bytes(), &[opts.shard as u8]]), true);
+        rep.sample_class(&format!("{}.{}.held-objects-after-noise", B::NAME, kind.name()), 1, || d("round trip fine"));
+    }
+    rep.count_n(&format!("{}.noise-calls-before-held-object-steps", B::NAME), noise.done);
+}
+
+fn backend<B: Backend + 'static>(opts: &Opts, rep: &mut Report) {
     related_secrets::<B>(opts, rep);
+    held_objects::<B>(opts, rep);
     let stream = format!("c05.{}", B::NAME);
     let mut idx = 0u64;
     let mut base_rng = Rng::derive(opts.seed, &stream, 0);
@@ -311,7 +359,7 @@ pub fn run(opts: &Opts) {
     for_backends!(opts, backend, opts, &mut rep);
     rep.set(
         "rule",
-        json!("related secrets: per kind 32 recipients / wrapping keys / passwords that differ from a base in one byte each (low-order end first, incl. counter-like all-zero bases), wrapped and unwrapped back to back on one thread, then all blobs unwrapped forwards and backwards; cases = (backend, kind in {local/secret-wrap.pie, local/secret-pw, seal}, wrapped key, wrapping key / password+params / recipient) wrapped with the library's randomness, serialised, parsed, unwrapped; body length compared with the format's table; 'repeat' cases wrap one tuple N times to vary the RNG outcome (counted once in distinct); RSA-KEM ciphertexts / ephemeral keys with a leading zero byte are counted"),
+        json!("held objects: key objects created once, then hundreds of wrap/unwrap/seal/unseal round trips each preceded on the same thread by 1-3 library calls that must fail (forged tokens, invalid keys, corrupted or wrongly keyed blobs, refused encoders); related secrets: per kind 32 recipients / wrapping keys / passwords that differ from a base in one byte each (low-order end first, incl. counter-like all-zero bases), wrapped and unwrapped back to back on one thread, then all blobs unwrapped forwards and backwards; cases = (backend, kind in {local/secret-wrap.pie, local/secret-pw, seal}, wrapped key, wrapping key / password+params / recipient) wrapped with the library's randomness, serialised, parsed, unwrapped; body length compared with the format's table; 'repeat' cases wrap one tuple N times to vary the RNG outcome (counted once in distinct); RSA-KEM ciphertexts / ephemeral keys with a leading zero byte are counted"),
     );
     rep.finish(opts);
 }
